@@ -207,7 +207,17 @@ func isNilOperator(op Operator) bool {
 func assertReflect(x any) (at reflect.Type, av reflect.Value) {
 	switch tv := x.(type) {
 	case reflect.Value:
-		at = tv.Type()
+		// the member of an interface-typed slice, array, map
+		// or struct field arrives enveloped: what matters is
+		// the value it holds.
+		for tv.Kind() == reflect.Interface && !tv.IsNil() {
+			tv = tv.Elem()
+		}
+
+		// the zero Value has no type to ask for.
+		if tv.IsValid() {
+			at = tv.Type()
+		}
 		av = tv
 	default:
 		at = typOf(tv)
@@ -322,8 +332,17 @@ func valuesEqual(x, y any) error {
 		return nil
 	}
 
-	_, xrv, xrk := derefPtr(assertReflect(x))
-	_, yrv, yrk := derefPtr(assertReflect(y))
+	xrt, xrv, xrk := derefPtr(assertReflect(x))
+	yrt, yrv, yrk := derefPtr(assertReflect(y))
+
+	// nil pointers (of any depth) dereference to nothing:
+	// they are equal only to one another.
+	if !xrv.IsValid() || !yrv.IsValid() {
+		if xrv.IsValid() != yrv.IsValid() || xrt != yrt {
+			return errorf("Nil pointer mismatch")
+		}
+		return nil
+	}
 
 	if tried, err := primitivesEqual(xrv, yrv); tried {
 		return err
